@@ -12,8 +12,37 @@ TCFG = "Trace_OutputHierarchy.cfg"
 classify = vlib.classify_for("C10")
 
 
-def _drive(ctx, binary, test, label, env, timeout=1800):
+PARALLEL = int(os.environ.get("VERIF_C10_PARALLEL", "1"))
+
+
+def _validate_chunk(ctx, path, label, max_failures):
+    """Validate one chunk in a private context (so that chunks can be
+    validated concurrently); returns the private context."""
+    sub = vlib.Ctx(ctx.prop, ctx.tier, ctx.seed)
+    try:
+        vlib.validate_traces(sub, path, TRACE, TCFG, DEPS, label,
+                             classify=classify, timeout=3000, max_failures=max_failures)
+        sub.error = None
+    except Exception as e:  # re-raised by the caller, in chunk order
+        sub.error = e
+    return sub
+
+
+def _merge(ctx, sub):
+    for k in ("states", "transitions", "traces_validated_against_impl", "nonconformances"):
+        ctx.cov[k] += sub.cov[k]
+    for k in ("events_validated", "other_property_verdicts"):
+        if k in sub.cov:
+            ctx.cov[k] = ctx.cov.get(k, 0) + sub.cov[k]
+    ctx.cov["tlc_runs"] += sub.cov["tlc_runs"]
+    ctx.violations += sub.violations
+    ctx.known_hits += sub.known_hits
+    sub.cleanup()
+
+
+def _drive(ctx, binary, test, label, env, timeout=1800, max_failures=3):
     """Run one case generator and validate every chunk it wrote."""
+    from concurrent.futures import ThreadPoolExecutor
     out = ctx.sub(label)
     rc, o = vlib.run_driver(binary, test, out, ctx.seed, env=env, timeout=timeout)
     if rc != 0:
@@ -21,13 +50,19 @@ def _drive(ctx, binary, test, label, env, timeout=1800):
     meta = json.load(open(os.path.join(out, "meta.json")))
     if not meta.get("files"):
         raise vlib.Infra("outputs driver %s wrote no trace" % test)
-    for k, name in enumerate(meta["files"]):
-        path = os.path.join(out, name)
-        vlib.validate_traces(ctx, path, TRACE, TCFG, DEPS, "%s_%d" % (label, k),
-                             classify=classify, timeout=2400, max_failures=6)
-        if k == 0:
-            ctx.cov["samples"] += vlib.sample_lines(path, 4, maxlen=600)
-        os.remove(path)
+    paths = [os.path.join(out, name) for name in meta["files"]]
+    ctx.cov["samples"] += vlib.sample_lines(paths[0], 4, maxlen=600)
+    with ThreadPoolExecutor(max_workers=max(1, PARALLEL)) as ex:
+        subs = list(ex.map(lambda kp: _validate_chunk(ctx, kp[1], "%s_%d" % (label, kp[0]), max_failures),
+                           enumerate(paths)))
+    err = None
+    for sub in subs:
+        err = err or sub.error
+        _merge(ctx, sub)
+    for p in paths:
+        os.remove(p)
+    if err:
+        raise err
     return meta
 
 
@@ -40,13 +75,13 @@ def run(ctx):
     if not quick:
         cfgs.append("MC_OutputHierarchy_full.cfg")
     for cfg in cfgs:
-        vlib.design_check(ctx, "OutputHierarchy.tla", cfg, [], timeout=3000, heap="4g")
+        vlib.design_check(ctx, "OutputHierarchy.tla", cfg, [], timeout=3000, heap="3g")
 
     # 2. the real code, case by case
     binary = vlib.go_build_test(ctx, "outputs")
     metas = {}
     metas["commands"] = _drive(ctx, binary, "TestCommands", "commands",
-                               {"VERIF_MAXPATHS": 2 if quick else 3})
+                               {"VERIF_MAXPATHS": 2 if quick else 3, "VERIF_STRIDE": 4 if quick else 1})
     metas["trees"] = _drive(ctx, binary, "TestTrees", "trees",
                             {"VERIF_WIDE": 0 if quick else 1, "VERIF_ALLCMDS": 0 if quick else 1})
     metas["random"] = _drive(ctx, binary, "TestRandom", "random",
